@@ -38,6 +38,8 @@ pub struct TeeSink {
     pub first_diff: RefCell<Option<(u64, String, String)>>,
     pub calls: Cell<u64>,
     pub check_every: u64,
+    pub ser_faults: Cell<u64>,
+    pub ser_subtrees: Cell<u64>,
 }
 
 impl TeeSink {
@@ -49,6 +51,8 @@ impl TeeSink {
             first_diff: RefCell::new(None),
             calls: Cell::new(0),
             check_every: 1,
+            ser_faults: Cell::new(0),
+            ser_subtrees: Cell::new(0),
         }
     }
 
@@ -96,13 +100,49 @@ impl TeeSink {
                 },
             }
         }
-        // serialisation visits each node once in document order
-        let mut rec = RecSer { events: vec![] };
+        let want = model_events(&dom);
         let sh: SerializableHandle = self.rc.document.clone().into();
+        let turn = self.calls.get().wrapping_mul(0x9E3779B97F4A7C15) >> 33;
+        // F16 (every fourth comparison): the caller's serializer fails at one callback.  The walk has
+        // to stop with that error, what it delivered before is a prefix of the full walk, and the
+        // tree is what it was (the comparison below and the full walk after it run on the same tree).
+        if turn % 4 == 0 && !want.is_empty() {
+            let at = (turn / 4) as usize % want.len();
+            let mut rec = RecSer { events: vec![], fail_at: Some(at) };
+            match sh.serialize(&mut rec, TraversalScope::ChildrenOnly(None)) {
+                Ok(()) => return Err(("serializer-error-swallowed".into(), format!("the serializer failed at callback #{at} and serialize() returned Ok"))),
+                Err(_) => {
+                    if rec.events.len() != at || rec.events[..] != want[..at] {
+                        return Err(("serialize-order-differs".into(), format!("before the injected failure at callback #{at} the serializer saw {} callbacks that are not the first {at} of the model walk", rec.events.len())));
+                    }
+                },
+            }
+            self.ser_faults.set(self.ser_faults.get() + 1);
+            compare_trees(&self.rc.document, &dom, 0).map_err(|e| ("tree-changed-by-failed-serialization".to_string(), e))?;
+        }
+        // one node serialised with IncludeNode (every eighth comparison): the node itself, then its subtree
+        if turn % 8 == 1 {
+            let all = self.all.borrow();
+            if !all.is_empty() {
+                let h = &all[(turn / 8) as usize % all.len()];
+                if !matches!(dom.n(h.m .0).kind, Kind::Document | Kind::Fragment) {
+                    let mut rec = RecSer { events: vec![], fail_at: None };
+                    let one: SerializableHandle = h.r.clone().into();
+                    if let Err(e) = one.serialize(&mut rec, TraversalScope::IncludeNode) {
+                        return Err(("serialize-error".into(), format!("{e}")));
+                    }
+                    if rec.events != model_events_of(&dom, h.m .0, true) {
+                        return Err(("serialize-order-differs".into(), format!("IncludeNode walk of node {} differs from the model's walk of that subtree", h.m .0)));
+                    }
+                    self.ser_subtrees.set(self.ser_subtrees.get() + 1);
+                }
+            }
+        }
+        // serialisation visits each node once in document order
+        let mut rec = RecSer { events: vec![], fail_at: None };
         if let Err(e) = sh.serialize(&mut rec, TraversalScope::ChildrenOnly(None)) {
             return Err(("serialize-error".into(), format!("{e}")));
         }
-        let want = model_events(&dom);
         if rec.events != want {
             for i in 0..rec.events.len().max(want.len()) {
                 if rec.events.get(i) != want.get(i) {
@@ -216,6 +256,19 @@ enum SerEv {
 
 struct RecSer {
     events: Vec<SerEv>,
+    /// F16: the serializer (the caller's writer behind it) fails at this callback
+    fail_at: Option<usize>,
+}
+
+impl RecSer {
+    fn push(&mut self, ev: SerEv) -> io::Result<()> {
+        if self.fail_at == Some(self.events.len()) {
+            self.fail_at = None;
+            return Err(io::Error::new(io::ErrorKind::Other, "injected: writer full"));
+        }
+        self.events.push(ev);
+        Ok(())
+    }
 }
 
 impl Serializer for RecSer {
@@ -223,38 +276,36 @@ impl Serializer for RecSer {
     where
         AttrIter: Iterator<Item = AttrRef<'a>>,
     {
-        self.events.push(SerEv::Start(format!("{}|{}", name.ns, name.local), attrs.map(|(n, v)| (format!("{}|{}", n.ns, n.local), v.to_string())).collect()));
-        Ok(())
+        self.push(SerEv::Start(format!("{}|{}", name.ns, name.local), attrs.map(|(n, v)| (format!("{}|{}", n.ns, n.local), v.to_string())).collect()))
     }
     fn end_elem(&mut self, name: QualName) -> io::Result<()> {
-        self.events.push(SerEv::End(format!("{}|{}", name.ns, name.local)));
-        Ok(())
+        self.push(SerEv::End(format!("{}|{}", name.ns, name.local)))
     }
     fn write_text(&mut self, text: &str) -> io::Result<()> {
-        self.events.push(SerEv::Text(text.to_string()));
-        Ok(())
+        self.push(SerEv::Text(text.to_string()))
     }
     fn write_comment(&mut self, text: &str) -> io::Result<()> {
-        self.events.push(SerEv::Comment(text.to_string()));
-        Ok(())
+        self.push(SerEv::Comment(text.to_string()))
     }
     fn write_doctype(&mut self, name: &str) -> io::Result<()> {
-        self.events.push(SerEv::Doctype(name.to_string()));
-        Ok(())
+        self.push(SerEv::Doctype(name.to_string()))
     }
     fn write_processing_instruction(&mut self, target: &str, data: &str) -> io::Result<()> {
-        self.events.push(SerEv::Pi(target.to_string(), data.to_string()));
-        Ok(())
+        self.push(SerEv::Pi(target.to_string(), data.to_string()))
     }
 }
 
 fn model_events(dom: &Dom) -> Vec<SerEv> {
+    model_events_of(dom, 0, false)
+}
+
+fn model_events_of(dom: &Dom, root: Id, include_node: bool) -> Vec<SerEv> {
     enum It {
         Open(Id),
         Close(String),
     }
     let mut out = vec![];
-    let mut stack: Vec<It> = dom.n(0).children.iter().rev().map(|c| It::Open(*c)).collect();
+    let mut stack: Vec<It> = if include_node { vec![It::Open(root)] } else { dom.n(root).children.iter().rev().map(|c| It::Open(*c)).collect() };
     while let Some(it) = stack.pop() {
         match it {
             It::Close(n) => out.push(SerEv::End(n)),
@@ -806,6 +857,8 @@ fn finish(sink: TeeSink, stats: &mut Stats) -> Result<u64, Violation> {
     stats.add("probe_add_attrs_if_missing", sink.model.stats_add_attrs.get());
     stats.add("probe_remove_from_parent", sink.model.stats_remove.get());
     stats.add("probe_clone_option", sink.model.stats_clone_option.get());
+    stats.add("F16_serializer_failed_at_one_callback", sink.ser_faults.get());
+    stats.add("subtrees_serialised_with_IncludeNode", sink.ser_subtrees.get());
     if let Some((_, class, d)) = sink.first_diff.borrow().clone() {
         return Err(Violation::new(&class, d));
     }
